@@ -1912,6 +1912,11 @@ class Pipeline:
         pipeline.functions = [f for f in pipeline.functions if f in between]
         pipeline._clear_internal_cache()
         pipeline._validate()
+        # A root argument keeps the default value it has in the full pipeline, also when
+        # the function that declared the default has been dropped.
+        for arg in pipeline.topological_generations.root_args:
+            if arg in self.defaults and arg not in pipeline.defaults:
+                pipeline.update_defaults({arg: self.defaults[arg]})
 
         if output_names is not None:
             dropped = [n for n in output_names if n not in pipeline.output_to_func]
